@@ -1125,7 +1125,16 @@ class Interp(object):
           return Fraction(r)
         return Fraction(float(fr) ** (1.0 / k))
       if isinstance(a, Frac):
-        raise HarnessError('root of Frac')
+        # root(n/d) = r with r >= 0 and r^k * d == n (d is a denominator: non-zero whenever the value is defined)
+        r = c.fresh_real('root%d' % k)
+        acc = r
+        for _ in range(k - 1):
+          acc = acc * r
+        c.assume(r >= 0, acc * Z(a.d) == Z(a.n))
+        c.cmp_obligations.append(a.d)
+        if 'Root' not in c.stubs:
+          c.stubs.append('Root')
+        return r
       key = ('root%d' % k, a.get_id())
       if key in c.memo:
         return c.memo[key][1]
